@@ -76,7 +76,7 @@ pub fn expr_forms(ops: &[String], literals: bool) -> Vec<String> {
 }
 
 /// Statement forms with an expression slot `{e}`.
-pub const STMT_FORMS: [&str; 52] = [
+pub const STMT_FORMS: [&str; 55] = [
     "x = {e};",
     "x += {e};",
     "x -= {e};",
@@ -129,6 +129,9 @@ pub const STMT_FORMS: [&str; 52] = [
     "for (var i = {e}; i < 2; i += {e}) { x = i; }",
     "for (x = {e}; x < 2; x++) x = {e};",
     "{e};",
+    "if (n > 1) { s <-- {e}; } else { s <-- 7; }",
+    "zz = {e};\n    zz = 8;",
+    "if (n > 1) { sa[0] <-- {e}; } else { sa[0] <-- 7; }\n    s <== sa[0];",
 ];
 
 pub const CONTEXTS: [&str; 5] = ["template", "template custom", "template parallel", "function", "function-return"];
@@ -374,7 +377,7 @@ pub const OPTION_CORPUS: [&str; 6] = [
 
 pub fn run(run: &Run) {
     run.set_rule(
-        "(i) 52 statement forms x expression forms (operands, 20 infix, 3 prefix, ternary, calls, arrays, \
+        "(i) 55 statement forms x expression forms (operands, 20 infix, 3 prefix, ternary, calls, arrays, \
          accesses, tuples, anonymous components positional/named/unknown, parallel, `_`, literal \
          alphabet incl. 0x, p, 2^256, division by zero, huge shifts; depth 2 in thorough) x 5 contexts \
          (template, custom, parallel, function statement, function return); (ii) all strings <= 3 (4) \
